@@ -46,7 +46,7 @@ def serialise(m):
             out += b"\r\n"
             i += n
         marks |= {len(out), len(out) + 1, len(out) + 2, len(out) + 3, len(out) + 4}
-        out += b"0\r\n\r\n"
+        out += m.get("lastchunk", "0").encode() + b"\r\n\r\n"       # last-chunk = 1*("0") (RFC 7230 4.1)
     exp = (m["kind"], version, m["code"], m["reason"], [(n.lower(), v) for n, v, _, _ in hdrs], body)
     return bytes(out), exp, marks
 
@@ -212,6 +212,7 @@ def message(draw, small=False):
     if mode == "chunked":
         m["chunks"] = draw(st.lists(st.one_of(st.integers(1, 20), st.integers(1, 700)), min_size=0, max_size=5))
         m["hexfmt"] = draw(st.sampled_from(["x", "X", "0x"]))
+        m["lastchunk"] = draw(st.sampled_from(["0", "0", "0", "00", "000", "0000"]))
     return m
 
 
